@@ -31,6 +31,7 @@ type entry struct {
 	rec                     string
 	leading                 bool
 	div, idx, slc, mk, asrt int
+	ch                      chanOps
 }
 
 func calleeName(e ast.Expr) string {
@@ -394,6 +395,406 @@ func recvName(fd *ast.FuncDecl) string {
 	return "(" + star + name + ")." + fd.Name.Name
 }
 
+
+// ---------------------------------------------------------------- control-flow model (coq/model/ReaderFlow.v)
+// A unit (a function declaration body, or a function literal) is rendered as a `stmt` with respect to ONE resource:
+// a mutex (X.Lock ... X.Unlock / defer X.Unlock) or the channel a goroutine sends on (close(ch) / defer close(ch)).
+type resource struct {
+	kind string // "Lock", "RLock" or "close"
+	text string // receiver / channel expression text
+}
+
+var safeCalls = map[string]bool{"len": true, "cap": true, "append": true, "new": true, "delete": true, "Now": true, "Sprintf": true, "Println": true,
+	"Error": true, "Errorf": true, "AddInt32": true, "StoreInt32": true, "LoadInt32": true, "CompareAndSwapInt32": true, "Sleep": true, "NewTicker": true, "Stop": true}
+
+// may the evaluation of n panic? (calls other than a few builtins / std helpers, index, slice, dereference, single-value
+// assertion, division, send) -- function literals are values: their bodies are not entered
+func mayPanic(nodes ...ast.Node) bool {
+	found := false
+	for _, n := range nodes {
+		if n == nil || (isNilNode(n)) {
+			continue
+		}
+		ast.Inspect(n, func(c ast.Node) bool {
+			switch x := c.(type) {
+			case *ast.FuncLit:
+				return false
+			case *ast.CallExpr:
+				name := calleeName(x.Fun)
+				if name == "make" {
+					if len(x.Args) >= 2 {
+						if _, lit := x.Args[1].(*ast.BasicLit); !lit {
+							found = true
+						}
+					}
+				} else if !safeCalls[name] {
+					found = true
+				}
+			case *ast.IndexExpr, *ast.SliceExpr, *ast.StarExpr, *ast.SendStmt:
+				found = true
+			case *ast.TypeAssertExpr:
+				if x.Type != nil {
+					found = true
+				}
+			case *ast.BinaryExpr:
+				if x.Op == token.QUO || x.Op == token.REM {
+					found = true
+				}
+			}
+			return true
+		})
+	}
+	return found
+}
+
+func isNilNode(n ast.Node) bool {
+	switch x := n.(type) {
+	case ast.Expr:
+		return x == nil
+	case ast.Stmt:
+		return x == nil
+	}
+	return false
+}
+
+type flowBuilder struct {
+	fset *token.FileSet
+	res  resource
+}
+
+// the call of statement st (expression statement or defer) if it is `X.<name>()` on the resource / close(X)
+func (b *flowBuilder) relCall(call *ast.CallExpr) bool {
+	if call == nil {
+		return false
+	}
+	if b.res.kind == "close" {
+		id, ok := call.Fun.(*ast.Ident)
+		return ok && id.Name == "close" && len(call.Args) == 1 && exprText(b.fset, call.Args[0]) == b.res.text
+	}
+	sel, ok := call.Fun.(*ast.SelectorExpr)
+	if !ok || len(call.Args) != 0 {
+		return false
+	}
+	un := "Unlock"
+	if b.res.kind == "RLock" {
+		un = "RUnlock"
+	}
+	return sel.Sel.Name == un && exprText(b.fset, sel.X) == b.res.text
+}
+
+func (b *flowBuilder) acqCall(call *ast.CallExpr) bool {
+	if call == nil || b.res.kind == "close" {
+		return false
+	}
+	sel, ok := call.Fun.(*ast.SelectorExpr)
+	return ok && len(call.Args) == 0 && sel.Sel.Name == b.res.kind && exprText(b.fset, sel.X) == b.res.text
+}
+
+func bstr(p bool) string {
+	if p {
+		return "true"
+	}
+	return "false"
+}
+
+func seq(parts []string) string {
+	if len(parts) == 0 {
+		return "SSkip"
+	}
+	r := parts[len(parts)-1]
+	for i := len(parts) - 2; i >= 0; i-- {
+		r = "(SSeq " + parts[i] + " " + r + ")"
+	}
+	return r
+}
+
+func alt(parts []string) string {
+	if len(parts) == 0 {
+		return "SSkip"
+	}
+	r := parts[len(parts)-1]
+	for i := len(parts) - 2; i >= 0; i-- {
+		r = "(SIf " + parts[i] + " " + r + ")"
+	}
+	return r
+}
+
+func other(p bool) string { return "(SOther " + bstr(p) + ")" }
+
+func (b *flowBuilder) list(l []ast.Stmt) string {
+	var parts []string
+	for _, st := range l {
+		parts = append(parts, b.stmt(st))
+	}
+	return seq(parts)
+}
+
+func (b *flowBuilder) block(bl *ast.BlockStmt) string {
+	if bl == nil {
+		return "SSkip"
+	}
+	return b.list(bl.List)
+}
+
+func (b *flowBuilder) clauses(body *ast.BlockStmt, addSkip bool) string {
+	var parts []string
+	hasDefault := false
+	for _, c := range body.List {
+		switch x := c.(type) {
+		case *ast.CaseClause:
+			if x.List == nil {
+				hasDefault = true
+			}
+			var ns []ast.Node
+			for _, e := range x.List {
+				ns = append(ns, e)
+			}
+			parts = append(parts, seq([]string{other(mayPanic(ns...)), b.list(x.Body)}))
+		case *ast.CommClause:
+			if x.Comm == nil {
+				hasDefault = true
+				parts = append(parts, b.list(x.Body))
+			} else {
+				parts = append(parts, seq([]string{other(mayPanic(x.Comm)), b.list(x.Body)}))
+			}
+		}
+	}
+	if !hasDefault && addSkip {
+		parts = append(parts, "SSkip")
+	}
+	return alt(parts)
+}
+
+func (b *flowBuilder) stmt(st ast.Stmt) string {
+	switch x := st.(type) {
+	case nil:
+		return "SSkip"
+	case *ast.ExprStmt:
+		if call, ok := x.X.(*ast.CallExpr); ok {
+			if b.acqCall(call) {
+				return "SAcq"
+			}
+			if b.relCall(call) {
+				return "SRel"
+			}
+		}
+		return other(mayPanic(x.X))
+	case *ast.DeferStmt:
+		if b.relCall(x.Call) {
+			return "SDefer"
+		}
+		if fl, ok := x.Call.Fun.(*ast.FuncLit); ok {
+			found := false
+			ast.Inspect(fl.Body, func(n ast.Node) bool {
+				if c, ok := n.(*ast.CallExpr); ok && b.relCall(c) {
+					found = true
+				}
+				return true
+			})
+			if found {
+				return "SDefer"
+			}
+		}
+		var ns []ast.Node
+		for _, a := range x.Call.Args {
+			ns = append(ns, a)
+		}
+		return other(mayPanic(ns...))
+	case *ast.GoStmt:
+		var ns []ast.Node
+		for _, a := range x.Call.Args {
+			ns = append(ns, a)
+		}
+		return other(mayPanic(ns...))
+	case *ast.ReturnStmt:
+		var ns []ast.Node
+		for _, a := range x.Results {
+			ns = append(ns, a)
+		}
+		return seq([]string{other(mayPanic(ns...)), "SReturn"})
+	case *ast.BranchStmt:
+		if x.Label == nil && x.Tok == token.BREAK {
+			return "SBreak"
+		}
+		if x.Label == nil && x.Tok == token.CONTINUE {
+			return "SContinue"
+		}
+		return "SJump"
+	case *ast.BlockStmt:
+		return b.block(x)
+	case *ast.LabeledStmt:
+		return b.stmt(x.Stmt)
+	case *ast.IfStmt:
+		els := "SSkip"
+		if x.Else != nil {
+			els = b.stmt(x.Else)
+		}
+		return seq([]string{b.stmt(x.Init), other(mayPanic(x.Cond)), "(SIf " + b.block(x.Body) + " " + els + ")"})
+	case *ast.ForStmt:
+		var cond ast.Node
+		if x.Cond != nil {
+			cond = x.Cond
+		}
+		body := seq([]string{other(cond != nil && mayPanic(cond)), b.block(x.Body), b.stmt(x.Post)})
+		return seq([]string{b.stmt(x.Init), "(SLoop " + body + ")"})
+	case *ast.RangeStmt:
+		return seq([]string{other(mayPanic(x.X)), "(SLoop " + b.block(x.Body) + ")"})
+	case *ast.SwitchStmt:
+		var tag ast.Node
+		if x.Tag != nil {
+			tag = x.Tag
+		}
+		return seq([]string{b.stmt(x.Init), other(tag != nil && mayPanic(tag)), "(SSwitch " + b.clauses(x.Body, true) + ")"})
+	case *ast.TypeSwitchStmt:
+		return seq([]string{b.stmt(x.Init), b.stmt(x.Assign), "(SSwitch " + b.clauses(x.Body, true) + ")"})
+	case *ast.SelectStmt:
+		return "(SSwitch " + b.clauses(x.Body, false) + ")"
+	}
+	return other(mayPanic(st))
+}
+
+type flowEntry struct {
+	file, fn string
+	unit     int
+	res      resource
+	recovers bool
+	body     string
+	line     int
+}
+
+// the function literals of a declaration in source order (unit n = the n-th literal, 1-based; 0 = the declaration itself)
+func unitsOf(fd *ast.FuncDecl) []*ast.BlockStmt {
+	units := []*ast.BlockStmt{fd.Body}
+	ast.Inspect(fd.Body, func(n ast.Node) bool {
+		if fl, ok := n.(*ast.FuncLit); ok {
+			units = append(units, fl.Body)
+		}
+		return true
+	})
+	return units
+}
+
+// Lock()/RLock() statements directly in the unit (not in nested literals)
+func lockResources(fset *token.FileSet, body *ast.BlockStmt) []resource {
+	var res []resource
+	seen := map[resource]bool{}
+	ast.Inspect(body, func(n ast.Node) bool {
+		if _, ok := n.(*ast.FuncLit); ok {
+			return false
+		}
+		if es, ok := n.(*ast.ExprStmt); ok {
+			if recv, kind, is := lockCall(fset, es, "Lock", "RLock"); is {
+				r := resource{kind, recv}
+				if !seen[r] {
+					seen[r] = true
+					res = append(res, r)
+				}
+			}
+		}
+		return true
+	})
+	return res
+}
+
+// channel operations of a goroutine body (nested literals included, they run on the same goroutine unless started by go)
+type chanOps struct {
+	send, recv, sel, selDone, selDefault, selPlain, rng, cls int
+	sendOn                                    []string
+}
+
+func chanInventory(fset *token.FileSet, body *ast.BlockStmt, locals map[string]*ast.FuncLit, pkg map[string]*ast.FuncDecl) chanOps {
+	var c chanOps
+	seen := map[string]bool{}
+	inComm := map[ast.Node]bool{}
+	visited := map[*ast.BlockStmt]bool{body: true}
+	var visit func(b *ast.BlockStmt, direct bool)
+	var insp func(n ast.Node) bool
+	direct := true
+	insp = func(n ast.Node) bool {
+		switch x := n.(type) {
+		case *ast.GoStmt:
+			return false
+		case *ast.SelectStmt:
+			c.sel++
+			done, def := false, false
+			for _, cl := range x.Body.List {
+				cc := cl.(*ast.CommClause)
+				if cc.Comm == nil {
+					def = true
+					continue
+				}
+				inComm[cc.Comm] = true
+				if strings.Contains(exprTextNode(fset, cc.Comm), ".Done()") {
+					done = true
+				}
+			}
+			if done {
+				c.selDone++
+			}
+			if def {
+				c.selDefault++
+			}
+			if !done && !def {
+				c.selPlain++
+			}
+		case *ast.RangeStmt:
+			c.rng++
+		case *ast.SendStmt:
+			if !inComm[x] {
+				c.send++
+				t := exprText(fset, x.Chan)
+				if direct && !seen[t] {
+					seen[t] = true
+					c.sendOn = append(c.sendOn, t)
+				}
+			}
+		case *ast.UnaryExpr:
+			if x.Op == token.ARROW {
+				c.recv++
+			}
+		case *ast.CallExpr:
+			if id, ok := x.Fun.(*ast.Ident); ok && id.Name == "close" {
+				c.cls++
+			}
+			// closures of the enclosing function share its channels; functions / methods of the package are followed for the counts
+			name := calleeName(x.Fun)
+			if _, plain := x.Fun.(*ast.Ident); plain && locals[name] != nil {
+				visit(locals[name].Body, direct)
+			} else if fd := pkg[name]; fd != nil && name != "TamePanic" {
+				visit(fd.Body, false)
+			}
+		}
+		return true
+	}
+	visit = func(b *ast.BlockStmt, d bool) {
+		if b == nil || visited[b] {
+			return
+		}
+		visited[b] = true
+		old := direct
+		direct = d
+		ast.Inspect(b, insp)
+		direct = old
+	}
+	ast.Inspect(body, insp)
+	// receives that are the communication of a select clause are not blocking on their own
+	for n := range inComm {
+		ast.Inspect(n, func(m ast.Node) bool {
+			if u, ok := m.(*ast.UnaryExpr); ok && u.Op == token.ARROW {
+				c.recv--
+			}
+			return true
+		})
+	}
+	return c
+}
+
+func exprTextNode(fset *token.FileSet, n ast.Node) string {
+	var b strings.Builder
+	printer.Fprint(&b, fset, n)
+	return b.String()
+}
+
 func main() {
 	repo := os.Getenv("VERIF_REPO")
 	if repo == "" {
@@ -431,6 +832,22 @@ func main() {
 		}
 	}
 	var all []entry
+	var closeFlows, lockFlows []flowEntry
+	for _, p := range files {
+		rel, _ := filepath.Rel(root, p)
+		for _, dc := range parsed[p].Decls {
+			fd, ok := dc.(*ast.FuncDecl)
+			if !ok || fd.Body == nil {
+				continue
+			}
+			for i, u := range unitsOf(fd) {
+				for _, r := range lockResources(fset, u) {
+					fb := &flowBuilder{fset: fset, res: r}
+					lockFlows = append(lockFlows, flowEntry{file: rel, fn: recvName(fd), unit: i, res: r, body: fb.block(u), line: fset.Position(u.Pos()).Line})
+				}
+			}
+		}
+	}
 	for _, p := range files {
 		f := parsed[p]
 		rel, _ := filepath.Rel(root, p)
@@ -472,6 +889,28 @@ func main() {
 				if body != nil {
 					e.rec, e.leading = recStatus(body)
 					census(body, &e, locals, decls[filepath.Dir(p)])
+					// go func() { q.f(a, b) }(): the goroutine IS f
+					if len(body.List) == 1 {
+						if es, ok := body.List[0].(*ast.ExprStmt); ok {
+							if call, ok := es.X.(*ast.CallExpr); ok {
+								if td := decls[filepath.Dir(p)][calleeName(call.Fun)]; td != nil {
+									body = td.Body
+								}
+							}
+						}
+					}
+					e.ch = chanInventory(fset, body, locals, decls[filepath.Dir(p)])
+					unit := 0
+					for i, u := range unitsOf(fd) {
+						if u == body {
+							unit = i
+						}
+					}
+					for _, c := range e.ch.sendOn {
+						fb := &flowBuilder{fset: fset, res: resource{"close", c}}
+						closeFlows = append(closeFlows, flowEntry{file: rel, fn: recvName(fd), unit: unit, res: fb.res,
+							recovers: e.rec == "RecDirect" && e.leading, body: fb.block(body), line: e.line})
+					}
 				} else {
 					e.rec = "RecUnknown"
 				}
@@ -518,7 +957,7 @@ func main() {
 	}
 	var b strings.Builder
 	b.WriteString("(* GENERATED by translate/gen_goroutines_reader from " + "$VERIF_REPO/reader" + " -- do not edit, never committed *)\n")
-	b.WriteString("From Coq Require Import List String ZArith.\nFrom Qryn Require Import model.ReaderGoroutines.\nImport ListNotations.\nOpen Scope string_scope.\n\n")
+	b.WriteString("From Coq Require Import List String ZArith.\nFrom Qryn Require Import model.ReaderGoroutines model.ReaderFlow.\nImport ListNotations.\nOpen Scope string_scope.\n\n")
 	b.WriteString("Definition reader_goroutines : list goroutine := [\n")
 	for i, e := range all {
 		sep := ";"
@@ -558,6 +997,33 @@ func main() {
 			l.file, l.fn, l.ord, l.recv, l.kind, l.status, sep, l.line)
 	}
 	b.WriteString("].\n")
+	b.WriteString("\n(* channel operations of every goroutine body: blocking sends / receives outside a select, selects (with a Done case, with a default), close calls *)\n")
+	b.WriteString("Definition reader_chanops : list chanop := [\n")
+	for i, e := range all {
+		sep := ";"
+		if i == len(all)-1 {
+			sep = ""
+		}
+		fmt.Fprintf(&b, "  {| c_file := %q; c_func := %q; c_ord := %d; c_send := %d; c_recv := %d; c_sel := %d; c_sel_done := %d; c_sel_default := %d; c_sel_plain := %d; c_range := %d; c_close := %d |}%s (* line %d; sends on %s *)\n",
+			e.file, e.fn, e.ord, e.ch.send, e.ch.recv, e.ch.sel, e.ch.selDone, e.ch.selDefault, e.ch.selPlain, e.ch.rng, e.ch.cls, sep, e.line, strings.ReplaceAll(strings.Join(e.ch.sendOn, ", "), "*)", "* )"))
+	}
+	b.WriteString("].\n")
+	writeFlows := func(name, kind string, fl []flowEntry) {
+		b.WriteString("\nDefinition " + name + " : list flow := [\n")
+		for i, f := range fl {
+			sep := ";"
+			if i == len(fl)-1 {
+				sep = ""
+			}
+			fmt.Fprintf(&b, "  {| f_file := %q; f_func := %q; f_unit := %d; f_res := %q; f_kind := %s; f_recovers := %s;\n     f_body := %s |}%s (* line %d *)\n",
+				f.file, f.fn, f.unit, f.res.kind+" "+f.res.text, kind, bstr(f.recovers), f.body, sep, f.line)
+		}
+		b.WriteString("].\n")
+	}
+	b.WriteString("\n(* control-flow model of every function body / literal that takes a mutex, per mutex *)")
+	writeFlows("reader_lock_flows", "FLock", lockFlows)
+	b.WriteString("\n(* control-flow model of every goroutine body per channel it sends on: the duty to close it *)")
+	writeFlows("reader_close_flows", "FClose", closeFlows)
 	if err := os.WriteFile(out, []byte(b.String()), 0644); err != nil {
 		fmt.Fprintln(os.Stderr, err)
 		os.Exit(1)
